@@ -36,7 +36,7 @@ func enlarge(b []byte, k int) []byte {
 type schedReader struct {
 	b     []byte
 	off   int
-	chunk int
+	chunk int // > 0: at most chunk bytes per Read; < 0: a single chunk boundary at offset -chunk
 	env   *mc.Env
 }
 
@@ -50,6 +50,9 @@ func (r *schedReader) Read(p []byte) (int, error) {
 	}
 	if r.chunk > 0 && n > r.chunk {
 		n = r.chunk
+	}
+	if r.chunk < 0 && r.off < -r.chunk && r.off+n > -r.chunk {
+		n = -r.chunk - r.off
 	}
 	if r.env != nil && n > 1 {
 		switch r.env.Choose(5) {
@@ -153,7 +156,7 @@ func checkC08(c *mc.Ctx) {
 		"larger packets use the library's documented layout: sync byte, k extra bytes, remaining 187 bytes; no 0x47 at offsets 188..192 of the first packet other than the next sync byte",
 		"a plain non-seekable reader with auto-detection loses the two packets consumed by detection (documented); the expected output is that of the stream without them",
 		"bufio.Reader with the default 4096-byte buffer")
-	streams := StandardStreams(c.Seed)
+	streams := append(StandardStreams(c.Seed), TinyPayloadStream(c.Seed))
 	var cfgs []c08Cfg
 	for _, kind := range []string{"bytes", "bufio", "plain", "seek"} {
 		for _, k := range []int{0, 1, 2, 3, 4, 16} {
@@ -205,7 +208,7 @@ func checkC08(c *mc.Ctx) {
 				continue
 			}
 			for ch := 1; ch <= 400; ch++ {
-				jobs = append(jobs, job{cfg, ch})
+				jobs = append(jobs, job{cfg, ch}, job{cfg, -ch})
 			}
 		}
 		total := int64(len(jobs))
@@ -226,7 +229,7 @@ func checkC08(c *mc.Ctx) {
 			}
 		})
 		c.Ev.AddScenario(mc.Scenario{Name: "fixed-chunks:" + st.Name, SpaceSize: total, Executed: done, Exhaustive: done == total,
-			Bound: "every chunk size 1..400 x {bufio, plain, seekable} x {explicit, auto} x packet size 188+k, k in {0,1,2,3,4,16} (auto: k<=4); bytes.Reader once per configuration"})
+			Bound: "every chunk size 1..400 and a single chunk boundary at every offset 1..400 x {bufio, plain, seekable} x {explicit, auto} x packet size 188+k, k in {0,1,2,3,4,16} (auto: k<=4); bytes.Reader once per configuration"})
 		// deviation-bounded short reads
 		bound := 2
 		for _, cfg := range cfgs {
